@@ -6,9 +6,11 @@ package smtp_downstream
 // recipient; recipients incl. IDN domains with and without SMTPUTF8 on the next hop.
 
 import (
-	"net"
+	"bufio"
 	"context"
+	"net"
 	"fmt"
+	"strings"
 	"sync"
 	"testing"
 
@@ -30,6 +32,62 @@ func (c *v9Coll) SetStatus(rcpt string, err error) {
 	c.mu.Lock()
 	c.sts = append(c.sts, fmt.Sprintf("(%s, %s)", cBytes([]byte(rcpt)), cBool(err == nil)))
 	c.mu.Unlock()
+}
+
+// a minimal LMTP server: accepts everything, after the final dot sends the given per-recipient
+// replies and closes the connection after [dropAfter] of them (dropAfter < 0: never)
+func v9RawLMTP(t *testing.T, replies []bool, dropAfter int) (string, func()) {
+	l, err := net.Listen("tcp", "127.0.0.1:0")
+	if err != nil {
+		t.Fatal(err)
+	}
+	go func() {
+		c, err := l.Accept()
+		if err != nil {
+			return
+		}
+		defer c.Close()
+		rd := bufio.NewReader(c)
+		wr := func(s string) { c.Write([]byte(s + "\r\n")) }
+		wr("220 raw.example LMTP")
+		inData := false
+		for {
+			line, err := rd.ReadString('\n')
+			if err != nil {
+				return
+			}
+			up := strings.ToUpper(strings.TrimSpace(line))
+			switch {
+			case inData:
+				if strings.TrimRight(line, "\r\n") == "." {
+					inData = false
+					for i, ok := range replies {
+						if dropAfter >= 0 && i >= dropAfter {
+							return
+						}
+						if ok {
+							wr("250 2.0.0 delivered")
+						} else {
+							wr("550 5.2.2 mailbox full")
+						}
+					}
+				}
+			case strings.HasPrefix(up, "LHLO"):
+				wr("250-raw.example")
+				wr("250-SMTPUTF8")
+				wr("250 ENHANCEDSTATUSCODES")
+			case strings.HasPrefix(up, "DATA"):
+				wr("354 go ahead")
+				inData = true
+			case strings.HasPrefix(up, "QUIT"):
+				wr("221 bye")
+				return
+			default:
+				wr("250 2.0.0 ok")
+			}
+		}
+	}()
+	return fmt.Sprint(l.Addr().(*net.TCPAddr).Port), func() { l.Close() }
 }
 
 func TestVerif_C09Lmtp(t *testing.T) {
@@ -63,12 +121,25 @@ func TestVerif_C09Lmtp(t *testing.T) {
 			}
 		}
 		transferOK := !r.chance(15)
+		port := testPort
 		if !transferOK {
 			be.DataErr = &smtp.SMTPError{Code: 451, EnhancedCode: smtp.EnhancedCode{4, 0, 0}, Message: "try later"}
 			replies = nil
+		} else if r.chance(35) && len(rcpts) >= 2 {
+			// the next hop answers for some recipients and then the connection breaks
+			k := r.intn(len(rcpts))
+			bs := make([]bool, len(rcpts))
+			for i := range bs {
+				bs[i] = be.LMTPDataErr[i] == nil
+			}
+			var stop func()
+			port, stop = v9RawLMTP(t, bs, k)
+			defer stop()
+			replies = replies[:k]
+			transferOK = false
 		}
 		mod := &Downstream{hostname: "mx.example.invalid",
-			endpoints: []config.Endpoint{{Scheme: "tcp", Host: "127.0.0.1", Port: testPort}},
+			endpoints: []config.Endpoint{{Scheme: "tcp", Host: "127.0.0.1", Port: port}},
 			modName:   "target.lmtp", lmtp: true, log: log.Logger{Out: log.NopOutput{}}}
 		d, err := mod.Start(ctx, &module.MsgMetadata{ID: "verif", SMTPOpts: smtp.MailOptions{UTF8: true}}, "sender@example.invalid")
 		if err != nil {
